@@ -369,7 +369,7 @@ func (o *Outcome) WriteEvidence(verifDir, explanation string, assumptions []stri
 	for _, ob := range o.Obs {
 		k := ob.ID + " " + ob.Rule
 		if ob.Verdict != OK || !seenRule[k] {
-			if len(samples) < 60 {
+			if len(samples) < 600 {
 				samples = append(samples, ob)
 			}
 			seenRule[k] = true
